@@ -6,6 +6,8 @@ package join
 
 //@ type joinError invariant len(self.errs) >= 1 && (forall i int :: 0 <= i && i < len(self.errs) ==> self.errs[i] != nil)
 
+//@ axiom countNonNil_bounds: forall s []error, n int :: {countNonNil(s, n)} 0 <= countNonNil(s, n) && (n >= 0 ==> countNonNil(s, n) <= n)
+
 //@ method (*joinError).Unwrap
 //@   props C13 C07
 //@   ensures result == self.errs
@@ -17,6 +19,8 @@ package join
 //@   props C13 C10 C05
 //@   ensures countNonNil(errs, len(errs)) == 0 ==> result == nil
 //@   ensures countNonNil(errs, len(errs)) > 0 ==> typeis(result, *joinError) && len(result.(*joinError).errs) == countNonNil(errs, len(errs))
+//@   ensures countNonNil(errs, len(errs)) > 0 ==> (forall i int :: 0 <= i && i < len(errs) && errs[i] != nil ==> result.(*joinError).errs[countNonNil(errs, i)] == errs[i])
 //@   loop 1: invariant n == countNonNil(errs, $n) && n >= 0
 //@   loop 2: invariant len(e.errs) == countNonNil(errs, $n)
 //@           invariant forall j int :: 0 <= j && j < len(e.errs) ==> e.errs[j] != nil
+//@           invariant forall i int :: 0 <= i && i < $n && errs[i] != nil ==> countNonNil(errs, i) < len(e.errs) && e.errs[countNonNil(errs, i)] == errs[i]
